@@ -10,10 +10,17 @@ Per generator three things are decided (DESIGN 2.2 / 4-C10):
                conditional mean / variance / correlation at every node equals the closed form the
                property names.
 
-Families: bm_tree (Brownian, geometric Brownian), merton_tree, kou_tree, cir_tree, heston_tree,
-vasicek_tree, rbergomi_impulse, localvol_tree, antithetic_perms, sobol_boxmuller, derivations.
-Implementation is split over c10.py (infrastructure, diffusion families, run) and the helper
-module mc/models/c10_families.py is NOT used: everything lives here.
+Families: bm_tree (Brownian, geometric Brownian), vasicek_tree, cir_tree, heston_tree, merton_tree,
+kou_tree, rbergomi_impulse, localvol_tree, antithetic_perms, sobol_boxmuller, derivations (mp.quad /
+mp.nsum re-derivations of the closed forms the law statements use).  Every tree family accepts
+"via": "instrument" (the primary instrument's simulate() instead of the generator) and "leaves": [i]
+(one explicit leaf = one answer path: the minimal replay block of a conformance violation).
+
+Signatures: site = generator (or <Instrument>.simulate); class = request_* (draw sites),
+conformance_* (which part of the scheme the first deviating node belongs to), law:* (model-level
+statement), raises:*, and the classifier classes kernel_normalisation_n_steps (DESIGN 7 finding 4),
+float_params_rounded_through_default_dtype / sqrt_dt_rounded_through_default_dtype (the deviation
+is reproduced exactly by the scheme with the python-float parameters rounded to float32).
 """
 from __future__ import annotations
 
@@ -243,8 +250,8 @@ def select_leaves(tree, block):
     return None
 
 
-def compare_levels(out, tree, anc, value_of, tol_of, skip_root=False):
-    """out: (L, k+1) tensor.  Returns (level, leaf_row, observed, expected, tol, ratio_max).
+def compare_levels(out, tree, anc, value_of, tol_of):
+    """out: (L, k+1) tensor.  Returns ((level, leaf_row, observed, expected, tol) of the first deviating node or None, max err/tol).
     value_of(state) -> mpf; tol_of(t, j, state) -> float absolute tolerance."""
     worst = 0.0
     first = None
@@ -702,11 +709,6 @@ def _qe_children(node, zs, wz, xl, wl, dn, eps):
             child({"z": JUNK, "u": u}, (1 - qe.p) * w, vn, vh, "E",
                   m * (qe.psi + 1) * (1 + eps / cond / one_minus_u) + vn)
     return out
-
-
-def _classify_cir(first, tree):
-    t = first[0]
-    return "col0" if t == 0 else None
 
 
 @family
